@@ -10,6 +10,7 @@ open Strm Goal State Term
 /-- no call of the program is a call made inside `dfs { }` -/
 def RProg.NoDfs : RProg → Prop
   | .succeed => True
+  | .fail => True
   | .atom _ => True
   | .conj p q => p.NoDfs ∧ q.NoDfs
   | .alt p q => p.NoDfs ∧ q.NoDfs
@@ -18,6 +19,7 @@ def RProg.NoDfs : RProg → Prop
 
 theorem RProg.noD (ord : Order) : ∀ (p : RProg), p.NoDfs → NoD (p.goal ord)
   | .succeed, _ => .succeed
+  | .fail, _ => .fail
   | .atom _, _ => .atom _
   | .conj p q, h => .conj (RProg.noD ord p h.1) (RProg.noD ord q h.2)
   | .alt p q, h => .alt (RProg.noD ord p h.1) (RProg.noD ord q h.2)
